@@ -34,6 +34,12 @@ CHECKS = {
         text="Seeded histories of init/fetch/feed/reseed/save/load/ascon_random/free/power-loss on a simulated device: the entropy tape and its faults come from a wrapped getrandom(), the flash page and its faults from the ascon_storage_t callbacks. Oracles are the sentences of the property: same plan twice => same output; flipping one consumed tape byte or one fed byte changes every later block >= 16 bytes; after every init/fetch/feed/reseed/save/load p^-1(state) has a zero rate; a fetch after 16384 produced bytes draws from the source first; every status equals the injected health of source/storage. Sampling over histories x fault sequences.",
         note="Trusted: harness p^-1 (self-tested against the library at start-up); Linux no-split guarantee for getrandom <= 256 bytes; status convention of random.h as repaired by the F12 fix commit.",
         design="§3 W3, §4 C15"),
+    "C16": dict(
+        technique="deterministic simulation: real threads released one at a time by a seeded scheduler that may pre-empt at every instrumented load/store/function entry of the library; own byte-precise race detector, static-storage write detector and per-thread result comparison",
+        category="exploration",
+        text="2..8 simulated caller threads run seeded plans over 18 operation kinds (hash, xof, the AEADs, incremental AEAD, SIV, PRF/HMAC/KMAC/HKDF/KDF, ascon_random, PRNG objects) on private objects, on a shared pre-computed ISAP key per variant, shared masked keys and shared constant inputs. The library's C sources are built with clang load/store/function-entry callbacks, so every memory access of library code is both seen by the harness's race detector (any two accesses of different threads to the same byte with at least one write, since the library has no synchronisation) and a potential pre-emption point decided by the seeded scheduler (Bernoulli rates 1/10..1/5000 or PCT-style change points). Three invariants: no race; no store to the executable's writable static storage (hidden global state); every thread's results equal its plan run alone. Passes: c64 (no blind spots) and asm (permutation modelled at the call boundary) in quick; plus c32, direct-xor, generic in thorough. Same seed => same switch sequence (checked under contention).",
+        note="Trusted: clang's sanitizer-coverage instrumentation to report every load/store of the C sources; the baton scheduler; races are judged on a clang -O1 build, not the shipped -O3 one (a race is a source-level property). C++ wrappers are not exercised here.",
+        design="§3 W4, §4 C16"),
     "C17": dict(
         technique="deterministic simulation: seeded life-cycle histories of the C++ cipher/hash/xof objects (every construction and keying path, every overload) mirrored call by call through the C API; the harness translation unit is the compile obligation",
         category="exploration",
